@@ -515,8 +515,18 @@ def replace_by_pure_dict(
   if replace_fn is None:
     replace_fn = lambda x, v: x.replace(v) if hasattr(x, 'replace') else v
   current_flat = dict(to_flat_state(state))
+  prefixes = {kp[:i] for kp in current_flat for i in range(1, len(kp) + 1)}
+
+  def resolve(kp):
+    # integer keys may have been stored as strings, genuine string keys that
+    # look like integers are left alone
+    out: tuple = ()
+    for k in kp:
+      out += (k if out + (k,) in prefixes else try_convert_int(k),)
+    return out
+
   for kp, v in traversals.flatten_mapping(pure_dict).items():
-    kp = tuple(map(try_convert_int, kp))
+    kp = resolve(kp)
     if kp not in current_flat:
       raise ValueError(f'key in pure_dict not available in state: {kp}')
     current_flat[kp] = replace_fn(current_flat[kp], v)
